@@ -9,7 +9,7 @@ from specs.lists import (gaddr, word_at_addr, offset_word, is_kind, rnglist_at, 
 from contracts.c07_lists import (R, L, RLT, LLT, CUArg, RElemT, LElemT, RangeEntryT, RBaseT)
 
 DU = "elftools/dwarf/dwarf_util.py"
-EXC = ["ELFParseError", "DWARFError", "OverflowError"]
+EXC = ["ELFParseError", "DWARFError", "OverflowError", "KeyError"]
 
 
 def _with_p(c, new_p, also=()):
@@ -25,6 +25,7 @@ def _with_p(c, new_p, also=()):
 @contract(R, "RangeLists.get_range_list_at_offset", props=["C07"])
 class get_range_list_at_offset:
     """the list at a section offset: exactly what the list parser yields from that offset"""
+    modifies = ["*rep"]
     params = dict(self=RLT, offset=Nat, cu=CUArg)
     requires = list(REGISTRY[(R, "RangeLists._parse_range_list_from_stream")].requires)
     ghost = {"$B": "self.stream.B", "$W": "self.structs.address_size"}
@@ -49,6 +50,7 @@ class get_range_list_at_offset_ex:
 @contract(R, "RangeLists.translate_v5_entry", props=["C07"])
 class translate_v5_entry:
     """one raw entry translated by the translator of its kind"""
+    modifies = ["*rep"]
     params = dict(self=RLT, entry=Rec(entry_offset=Nat, entry_length=Nat, entry_end_offset=Nat, entry_type=CodeT(8),
                                       index=Nat, start_index=Nat, end_index=Nat, length=Nat, start_offset=Nat,
                                       end_offset=Nat, address=Nat, start_address=Nat, end_address=Nat), cu=CUArg)
@@ -64,6 +66,7 @@ PairT = Obj('RangeListsPair', _ranges=RLT.extend(version=Const(4)), _rnglists=RL
 @contract(R, "RangeListsPair.get_range_list_at_offset", props=["C07"])
 class pair_get_range_list:
     """both sections present: the unit's version selects the section (v5 units use .debug_rnglists)"""
+    modifies = ["*rep"]
     params = dict(self=PairT, offset=Nat, cu=Opt(CUArg))
     requires = ["self._ranges._max_addr == (2**32 - 1 if self._ranges.structs.address_size == 4 else 2**64 - 1)",
                 "self._rnglists._max_addr == (2**32 - 1 if self._rnglists.structs.address_size == 4 else 2**64 - 1)"]
@@ -72,7 +75,7 @@ class pair_get_range_list:
                "cu.header.version < 5 or len(result) == len(rnglist_at(self._rnglists.stream.B, offset))",
                "cu.header.version >= 5 or (word_at_addr(self._ranges.stream.B, offset + 2 * self._ranges.structs.address_size * len(result),"
                " self._ranges.structs.address_size) == 0)"]
-    may_raise = ["ELFParseError", "OverflowError", "DWARFError"]
+    may_raise = ["ELFParseError", "OverflowError", "DWARFError", "KeyError"]
 
 
 DieArg = Obj('DIE', cu=CUArg)
@@ -82,51 +85,43 @@ DieArg = Obj('DIE', cu=CUArg)
 class get_location_list_at_offset:
     """the list at a section offset: the pre-v5 or the v5 decoding according to the section version;
     a v5 section needs the debugging entry for its unit"""
+    modifies = ["*rep"]
     params = dict(self=LLT, offset=Nat, die=Opt(DieArg))
     requires = list(REGISTRY[(L, "LocationLists._parse_location_list_from_stream")].requires)
     ghost = {"$B": "self.stream.B", "$W": "self.structs.address_size"}
     returns = ListOf(LElemT)
     ensures = ["self.version < 5 or die is not None"] + ["self.version >= 5 or (%s)" % e for e in _with_p((L, "LocationLists._parse_location_list_from_stream"), 'offset')] + \
               ["self.version < 5 or (%s)" % e.replace('cu', 'die.cu') for e in _with_p((L, "LocationLists._parse_location_list_from_stream_v5"), 'offset')]
-    may_raise = ["ELFParseError", "OverflowError", "DWARFError"]
+    may_raise = ["ELFParseError", "OverflowError", "DWARFError", "KeyError"]
 
 
 # ------------------------------------------------------------------ index -> offset
-AttrT = Rec('AttributeValue', name=Str, form=Str, value=Nat, raw_value=Nat, offset=Nat, indirection_length=Nat)
+from contracts._dwarf_shapes import AttrT
 BASES = ('DW_AT_rnglists_base', 'DW_AT_loclists_base', 'DW_AT_str_offsets_base', 'DW_AT_addr_base')
-
-
-@contract("elftools/dwarf/compileunit.py", "CompileUnit.get_top_DIE", props=["C07"])
-class get_top_die:
-    """(assumed here; the entry parse is C04's) the unit's root entry; its base attributes are the
-    unit's bases"""
-    mode = 'assume'
-    returns = Obj('DIE', attributes=DictOf(AttrT))
-    ensures = ["('%s' in result.attributes) == has_base(self, '%s')" % (b, b) for b in BASES] + \
-              ["not has_base(self, '%s') or result.attributes['%s'].value == base_of(self, '%s')" % (b, b, b) for b in BASES]
-    may_raise = EXC
 
 
 @contract(DU, "_get_base_offset", props=["C07"])
 class get_base_offset:
     """the base attribute of the unit's root entry, required"""
+    modifies = ["*rep"]
     params = dict(cu=CUArg, base_attribute_name=OneOf(*BASES))
     returns = Nat
     ensures = ["has_base(cu, base_attribute_name)", "result == base_of(cu, base_attribute_name)"]
-    may_raise = ["ELFParseError", "OverflowError", "DWARFError"]
+    may_raise = ["ELFParseError", "OverflowError", "DWARFError", "KeyError"]
 
 
 @contract(DU, "_resolve_via_offset_table", props=["C07"])
 class resolve_via_offset_table:
     """index -> offset (7.28, 7.29): base + the index-th entry of the offset table at base, entries
     being 4 bytes in 32-bit DWARF units and 8 bytes in 64-bit ones; the stream position is kept"""
+    modifies = ["*rep"]
     params = dict(stream=Stream, cu=CUArg, index=Nat, base_attribute_name=OneOf('DW_AT_rnglists_base', 'DW_AT_loclists_base'))
     returns = Nat
     ensures = ["has_base(cu, base_attribute_name)",
                "result == base_of(cu, base_attribute_name) + offset_word(stream.B, base_of(cu, base_attribute_name)"
                " + index * (4 if cu.structs.dwarf_format == 32 else 8), cu.structs.dwarf_format)",
                "stream.pos == old(stream.pos)"]
-    may_raise = ["ELFParseError", "OverflowError", "DWARFError"]
+    may_raise = ["ELFParseError", "OverflowError", "DWARFError", "KeyError"]
 
 
 # ------------------------------------------------------------------ unit blocks of the v5 sections
@@ -209,6 +204,7 @@ LPairT = Obj('LocationListsPair', _loc=LLT.extend(version=Const(4)), _loclists=L
 @contract(L, "LocationListsPair.get_location_list_at_offset", props=["C07"])
 class pair_get_location_list:
     """both sections present: the version of the entry's unit selects the section"""
+    modifies = ["*rep"]
     params = dict(self=LPairT, offset=Nat, die=Opt(DieArg))
     requires = ["self._loc._max_addr == (2**32 - 1 if self._loc.structs.address_size == 4 else 2**64 - 1)",
                 "self._loclists._max_addr == (2**32 - 1 if self._loclists.structs.address_size == 4 else 2**64 - 1)"]
@@ -217,7 +213,7 @@ class pair_get_location_list:
                "die.cu.header.version < 5 or len(result) == len(loclist_at(self._loclists.stream.B, offset))",
                "die.cu.header.version >= 5 or (word_at_addr(self._loc.stream.B, loc_off(self._loc.stream.B, offset, self._loc.structs.address_size, len(result)),"
                " self._loc.structs.address_size) == 0)"]
-    may_raise = ["ELFParseError", "OverflowError", "DWARFError"]
+    may_raise = ["ELFParseError", "OverflowError", "DWARFError", "KeyError"]
 
 
 # ------------------------------------------------------------------ attribute classification
@@ -304,10 +300,11 @@ LocParserT = Obj('LocationParser', location_lists=LLT)
 class parse_from_attribute:
     """expression forms give the expression bytes, list forms the list at the offset the attribute
     holds; anything else is rejected"""
+    modifies = ["*rep"]
     params = dict(self=LocParserT, attr=Rec('AttributeValue', name=Str, form=Str, value=Nat), dwarf_version=U16, die=Opt(DieArg))
     requires = [IS_FORM,
                 "self.location_lists._max_addr == (2**32 - 1 if self.location_lists.structs.address_size == 4 else 2**64 - 1)"]
     returns = Any
     ensures = ["not (attr.form == 'DW_FORM_exprloc') or (is_kind(result, 'LocationExpr') and result.loc_expr is attr.value)",
                "not (attr.form == 'DW_FORM_sec_offset' or attr.form == 'DW_FORM_loclistx') or not is_kind(result, 'LocationExpr')"]
-    may_raise = ["ValueError", "ELFParseError", "OverflowError", "DWARFError"]
+    may_raise = ["ValueError", "ELFParseError", "OverflowError", "DWARFError", "KeyError"]
